@@ -14,6 +14,42 @@ def hx(b):
     return b.hex() if b else "-"
 
 
+class TextValueGen(ValueGen):
+    """strings are valid UTF-8 text: what JSON does to other byte strings (base64 objects, F9) is C05's subject, not C07's"""
+
+    def string(self):
+        r = self.rng
+        l = r.choice(self.STR_LENS) if r.random() < 0.93 else r.choice(self.STR_RARE)
+        alphabet = "abcXYZ019 _-\u00e9\u0416\u4e2d\"\\/"
+        s = "".join(r.choice(alphabet) for _ in range(l)).encode("utf-8")
+        return s
+
+
+def reaches(ins, tid, pred):
+    seen, todo = set(), [tid]
+    while todo:
+        t = todo.pop()
+        if t in seen or t < 0:
+            continue
+        seen.add(t)
+        x = ins[t]
+        if pred(x):
+            return True
+        todo += obj_lib.children(ins, x)
+    return False
+
+
+def known_lossy(ins, rtid, rb_hex):
+    """classification of a TL1 -> JSON/TL2 -> TL1 difference by the two known lossy encodings (F20, F19)"""
+    b = b"" if rb_hex == "-" else bytes.fromhex(rb_hex)
+    if (b'"' in b or b"\\" in b) and reaches(ins, rtid, lambda x: x["kind"] == "dict" and (key_prim_of(ins, x) or {}).get("name") == "string"):
+        return "F20:json-dict-key-not-unescaped"
+    negz = any(b[i:i + 4] == b"\x00\x00\x00\x80" for i in range(0, len(b) - 3, 4))
+    if negz and reaches(ins, rtid, lambda x: x["kind"] == "prim" and x["name"] in ("float32", "float64")):
+        return "F19:negative-zero-dropped"
+    return None
+
+
 def natarg_tok(a):
     return f"{a['kind']}:{a['value']}"
 
@@ -47,7 +83,7 @@ def run(ctx):
         funs = [(x["id"], x["tlName"], x) for x in u.ins
                 if x["kind"] == "struct" and x.get("isFunction") and x.get("topLevel") and not x.get("natParams") and x["tlName"] in u.items]
         san = "1" if u.san else "0"
-        vg = ValueGen(u.ins, rng)
+        vg = TextValueGen(u.ins, rng)
         tags = [x["tag"] for x in u.ins if x.get("tag")]
         s_ = {k: 0 for k in stats if k != "verdicts"}
         s_["schemas"] = 1
@@ -145,6 +181,7 @@ def run(ctx):
                         variants.append((other[4], "wrong_env"))
                 for h, k in variants:
                     ops.append((f"ores {name} {rq} {h} {typed}", f"{head} | {rq} {h}", k, name))
+        ures = {name: lst[0][1]["result"]["type"] for name, lst in by_fun.items()}
         gl = [o[0] for o in ops]
         ml = [o[1] for o in ops]
         go = run_lines_resilient(u.gen.exe, [], gl, timeout=900, max_restarts=10)
@@ -153,6 +190,9 @@ def run(ctx):
             with lock:
                 unit_errors.append((u.name, f"driver failed: model rc={rc} lines {len(mo)}/{len(ml)} go {len(go)}/{len(gl)} {err[-300:]}"))
             return
+        import os
+        if os.environ.get("VERIF_DUMP_OPS"):
+            Path(os.environ["VERIF_DUMP_OPS"] + f"_{u.name}.txt").write_text("\n".join(f"{a}\t{b}" for a, b in zip(gl, go)) + "\n")
         ubad, umism = [], []
         for (l, ml_, k, name), g, m in zip(ops, go, mo):
             s_["ops_" + k] += 1
@@ -172,18 +212,23 @@ def run(ctx):
                     umism.append((u.name, l, m, g))
                 if k == "valid" or flags["j"] == "same":
                     pass
+                rtid = ures[name]
+                lossy = known_lossy(u.ins, rtid, l.split(" ")[3]) if k == "valid" else None
                 if flags["j"] == "same":
                     s_["json_roundtrip_same"] += 1
                 elif k == "valid":
-                    ubad.append((u.name, l, g, f"C07:json:{u.name}:{name}", "TL1 -> JSON -> TL1 does not reproduce the result bytes"))
+                    sig = f"C07:{lossy}:{name}" if lossy else f"C07:json:{u.name}:{name}"
+                    ubad.append((u.name, l, g, sig, "TL1 -> JSON -> TL1 does not reproduce the result bytes"))
                 if flags["t2"] == "same":
                     s_["tl2_roundtrip_same"] += 1
                 elif flags["t2"] != "na" and k == "valid":
-                    ubad.append((u.name, l, g, f"C07:tl2:{u.name}:{name}", "TL1 -> TL2 -> TL1 does not reproduce the result bytes"))
+                    sig = f"C07:{lossy}:{name}" if lossy and lossy.startswith("F19") else f"C07:tl2:{u.name}:{name}"
+                    ubad.append((u.name, l, g, sig, "TL1 -> TL2 -> TL1 does not reproduce the result bytes"))
                 if flags["x"] == "same":
                     s_["cross_same"] += 1
                 elif flags["x"] != "na" and k == "valid":
-                    ubad.append((u.name, l, g, f"C07:cross:{u.name}:{name}", "TL2 -> JSON / JSON -> TL2 disagree with TL1 -> JSON / TL1 -> TL2"))
+                    sig = f"C07:{lossy}:{name}" if lossy else f"C07:cross:{u.name}:{name}"
+                    ubad.append((u.name, l, g, sig, "TL2 -> JSON / JSON -> TL2 disagree with TL1 -> JSON / TL1 -> TL2"))
                 if flags["typed"] == "same":
                     s_["typed_same"] += 1
                 elif flags["typed"] != "na":
@@ -220,6 +265,6 @@ def run(ctx):
                  "Go harness harness/go/gendrv (ops_obj.go: ores); comparison in lib/checks/C07.py"],
         assumptions=["64-bit platform", "the templates are modelled, not verified: agreement shown on the listed functions x requests x results",
                      "TL2 and JSON legs are covered by the Go-side oracle only (the Coq model is TL1-level): partial",
-                     "the typed path is exercised only where the result type is itself a factory object without nat arguments (the typed ReadResult/WriteResult methods are not in the generic interface)"],
+                     "strings in generated values are valid UTF-8 (other byte strings in JSON: C05 / F9)", "the typed path is exercised only where the result type is itself a factory object without nat arguments (the typed ReadResult/WriteResult methods are not in the generic interface)"],
         extra={"evaluations": stats["ops_valid"] + stats["ops_mutated"] + stats["ops_wrong_env"], "distinct_nontrivial": stats["result_values"],
                "skipped_constructs": skipped[:40]})
